@@ -1,4 +1,4 @@
-import PBProofs.Lemmas.Tasks
+import PBProofs.Lemmas.TasksProgress
 /-
 C07 — Tasks: no self-overlap, no early or cancelled runs, queue order, nothing lost.
 
@@ -313,6 +313,48 @@ theorem nothing_lost_REFUTED :
   obtain ⟨h1, h2, h3, h4, h5, h6⟩ := hfacts
   have := hall s hr 0 h1 h2
   simp [Tracked, h3, h4, h5, h6] at this
+
+/-! ### The handlers are never stuck (steps towards execution; eventual execution under fairness is not proved) -/
+
+/-- The task at the head of the prioritized queue (of the normal queue, if the prioritized one is empty) is
+    picked and started by the queue handler's next two steps as soon as the handler is past its wait, provided
+    the task is neither cancelled nor executing. -/
+theorem head_of_queue_is_started {s : St} (h : Reachable s) (now : Nat) (hn : s.now ≤ now) (t : Nat)
+    (hq : s.qh = .ready)
+    (hhead : (∃ ps, s.prio = t :: ps) ∨ (s.prio = [] ∧ ∃ qs, s.queue = t :: qs))
+    (hc : (s.tasks t).canceled = false) (hx : (s.tasks t).executing = false) :
+    ∃ s1 s2, step s now .qhPop = some s1 ∧ step s1 now .runQ = some s2 ∧ Starts (setNow s1 now) .runQ t ∧
+      (s2.tasks t).starts = (s.tasks t).starts + 1 :=
+  head_is_started h now hn t hq hhead hc hx
+
+/-- A waiting queue handler cannot wait for ever: it waits only while a slot watcher exists, and every slot
+    watcher gives up (releases its slot) at the latest `maxExecutionWait` after it was started. -/
+theorem waiting_queue_handler_is_released {s : St} (h : Reachable s) (hq : s.qh = .waiting) :
+    s.watchers ≠ [] ∧
+    ∀ w, w ∈ s.watchers → ∀ now, s.now ≤ now → w.tm + maxExecutionWait ≤ now →
+      ∃ s', step s now (.slotFree w.t true) = some s' ∧ s'.wg = s.wg - 1 := by
+  have hwg := reachable_invWait h 0 hq
+  have hw := ((reachable_inv h).watch 0).1
+  refine ⟨?_, ?_⟩
+  · intro he; rw [he] at hw; simp at hw; omega
+  · intro w hwm now hn ht; exact watcher_times_out now hn w hwm hwg ht
+
+/-- The schedule handler, when idle, takes up the first scheduled task as soon as its time has come. -/
+theorem due_task_is_taken_up {s s' : St} {now : Nat} {t : Nat} {rest : List Nat}
+    (hstep : step s now .shFetch = some s') (hs : s.sched = t :: rest) (hdue : (s.tasks t).executeAt ≤ now) :
+    s'.sh = .holdRun t ∨ s'.sh = .holdAsap t := by
+  have h1 := (step_eq hstep).2
+  simp only [stepAt] at h1
+  split at h1
+  · cases h1
+  · have hnd : ¬ now < (s.tasks t).executeAt := by omega
+    cases ho : (s.tasks t).overtime
+    · have hf : fetchRes (setNow s now) = FetchRes.asap t := by
+        simp [fetchRes, setNow, hs, hnd, ho]
+      rw [hf] at h1; simp at h1; subst h1; simp [setTask, setNow]
+    · have hf : fetchRes (setNow s now) = FetchRes.run t := by
+        simp [fetchRes, setNow, hs, hnd, ho]
+      rw [hf] at h1; simp at h1; subst h1; simp [setTask, setNow]
 
 /-! ### Non-vacuity -/
 
